@@ -94,7 +94,7 @@ def funcs(ctx, module=None, stubs=None):
         raise orders.Unsupported('free name %s' % nm)
 
     def resolve(call, fname):
-        if isinstance(call.func, ast.Name) or (isinstance(call.func, ast.Attribute) and ast.unparse(call.func.value) in ('tracklib', 'utils', 'Geometry', 'tracklib.util')):
+        if isinstance(call.func, ast.Name) or (isinstance(call.func, ast.Attribute) and (ast.unparse(call.func.value) in ('tracklib', 'utils', 'Geometry') or (ast.unparse(call.func.value).startswith('tracklib.') and all(isinstance(x_, (ast.Attribute, ast.Name, ast.Load)) for x_ in ast.walk(call.func.value))))):
             fi = lookup(fname)
             if fi is not None:
                 return orders.make_func(fi.node, fn)
